@@ -422,6 +422,7 @@ struct Exec {
   }
 
   void finish() {
+    c.trace("program: %s", hist.c_str());
     c.stage("unwind");
     while (!stack.scopes.empty()) pop();
     for (size_t i = 0; i < spans.size(); ++i)
